@@ -3,6 +3,7 @@ CONSTANTS
   KeySet = {0, 1}
   PQ <- PQB
   Aligns = {FALSE}
+  Phases = {0}
   MaxOps = 9
   Emit = FALSE
   ErrEffects = FALSE
